@@ -1267,6 +1267,8 @@ def run(ctx):
     r19b(ctx)
     # a lookup by (table) name matches that name only: membership in a list of names, never a substring test on the name itself (rule shared with C19)
     r19f(ctx)
+    from .round12 import r14m
+    r14m(ctx)
 
 
 from ..selftest import Seed, unparse_seed  # noqa: E402
